@@ -268,7 +268,9 @@ class ProcessManager:
                 elif isinstance(action, ShutdownAction):
                     logger.debug("Process manager closed, killing workers.")
                     for worker in self.workers:
-                        if worker.pid:
+                        # A worker that is already dead (and reaped) doesn't
+                        # own its pid anymore, so it must not be signalled.
+                        if worker.pid and worker.is_alive():
                             os.kill(worker.pid, signal.SIGINT)
                     return None
 
